@@ -28,7 +28,7 @@ CHECKS = {
             "DESIGN.md §5 C04"),
     "C05": ("exploration",
             "exhaustive enumeration of token strings and edit neighbourhoods; watchdog for non-termination; subprocess for size stressors",
-            "Every string of <=4 (quick) / <=5 (thorough) tokens over a 48-token alphabet hitting every lexer entry (identifiers, brackets, quotes, raw-string delimiters, escapes, digits, separators, operators, multi-byte and control characters) and the complete single-edit neighbourhood (delete, duplicate, truncate, insert each of 36 characters at each position; thorough: double edits on the 15 shortest) of a 62-filter corpus covering every construct is parsed as filter and as value expression: no panic, returns within the cap (watchdog), every error formats, and its text designates a line of the input with a column range inside that line. About 2 800 size stressors (10^5-operand chains, 10^5-deep nestings of every construct, 10^5 list items / arguments / index accesses, raw strings with 255/256/10^5 hashes, giant identifiers and strings, and runs of 254..65537 copies of each of 14 characters behind each of 18 lexer states, to cross the width of any narrow counter) run on a 2 MiB stack in a subprocess. The harness is built with overflow checks and debug assertions, as the repository's own tests are.",
+            "Every string of <=4 (quick) / <=5 (thorough) tokens over a 48-token alphabet hitting every lexer entry (identifiers, brackets, quotes, raw-string delimiters, escapes, digits, separators, operators, multi-byte and control characters) and the complete single-edit neighbourhood (delete, duplicate, truncate, insert each of 36 characters at each position; thorough: double edits on the 15 shortest) of a 62-filter corpus covering every construct is parsed as filter and as value expression: no panic, returns within the cap (watchdog), every error formats, and its text designates a line of the input with a column range inside that line. About 2 800 size stressors (10^5-operand chains, 10^5-deep nestings of every construct, 10^5 list items / arguments / index accesses, raw strings with 255/256/10^5 hashes, giant identifiers and strings, 10^5 nested or unclosed groups / non-capturing groups / classes, stacked quantified groups and counted repetitions inside quoted and raw regex literals, and runs of 254..65537 copies of each of 14 characters behind each of 18 lexer states, to cross the width of any narrow counter) run on a 2 MiB stack in a subprocess. The harness is built with overflow checks and debug assertions, as the repository's own tests are.",
             "Error well-formedness is read from the Display text only; inputs outside the enumerated families are not explored.",
             "DESIGN.md §5 C05"),
     "C06": ("exploration",
@@ -38,7 +38,7 @@ CHECKS = {
             "DESIGN.md §5 C06"),
     "C07": ("exploration",
             "bounded exhaustive enumeration of spellings per structure; engine JSON compared with a reference serialiser",
-            "For every program of a 10k-filter corpus (every operator, index kind, call shape, literal form; all 1-3 operator boolean structures): every alias assignment of the first 8 operator occurrences x whitespace layouts (minimal, single, double, LF, CR/LF mix, each gap alone, Unicode whitespace around) must give equal ASTs, byte-identical JSON equal to the reference document, identical C-API hash and identical std Hash; the variant with every quoted string / regex literal written raw and vice versa is parsed too, and if its AST compares equal everything derived from it (JSON, C hash, Hash) must agree; serialising twice is identical; over the whole set the map JSON -> structure is injective.",
+            "For every program of a 10k-filter corpus (every operator, index kind, call shape, literal form; all 1-3 operator boolean structures): every alias assignment of the first 8 operator occurrences x whitespace layouts (minimal, single, double, LF, CR/LF mix, each gap alone, Unicode whitespace around) must give equal ASTs, byte-identical JSON equal to the reference document, identical C-API hash and identical std Hash; the variant with every quoted string / regex literal written raw and vice versa is parsed too, and if its AST compares equal everything derived from it (JSON, C hash, Hash) must agree; the neighbours with one literal changed (the case of one letter, an integer by one) must differ in AST and JSON; serialising twice is identical; over the whole set the map JSON -> structure is injective.",
             "Reference serialiser harness/src/sem.rs::expr_json; whitespace alphabet as documented (space, CR, LF between tokens).",
             "DESIGN.md §5 C07"),
     "C08": ("model_checking",
@@ -53,7 +53,7 @@ CHECKS = {
             "DESIGN.md §5 C09"),
     "C10": ("exploration",
             "exhaustive enumeration of needles x anchors x haystacks in two processes (SIMD / scalar) against a naive oracle",
-            "Needle lengths 0..=24 (quick) / 0..=40 (thorough) in four families over {a,b} (crossing the 0, 1, 2..16 and >16 specialisations), every SIMD anchor position 1..len-1 through the cfg-guarded override hook plus 8 compilations with the engine's own random anchor, x haystacks: every {a,b}-string of length <=9/12 behind paddings {0,15,16,17,31,32,33}, the needle embedded at every offset of every total length <=72/300 in four fillers with three near-misses each, and degenerate haystacks (empty, shorter, equal, one byte off). Two worker processes (AVX2 enabled / WIREFILTER_USE_AVX2=0, verified through verif::simd_active) must both equal the naive window comparison.",
+            "Needle lengths 0..=24 (quick) / 0..=40 (thorough) in four families over {a,b} (crossing the 0, 1, 2..16 and >16 specialisations), every byte value as a one-byte needle and the edge values 00/01/7f/80/fe/ff in 2-, 3- and 17-byte needles, every SIMD anchor position 1..len-1 through the cfg-guarded override hook plus 8 compilations with the engine's own random anchor, x haystacks: every {a,b}-string of length <=9/12 behind paddings {0,15,16,17,31,32,33}, the needle embedded at every offset of every total length <=72/300 in four fillers with three near-misses each, and degenerate haystacks (empty, shorter, equal, one byte off). Two worker processes (AVX2 enabled / WIREFILTER_USE_AVX2=0, verified through verif::simd_active) must both equal the naive window comparison.",
             "Hook: wirefilter::verif::set_anchor_override / simd_active. Without AVX2 hardware the SIMD half is reported as not covered.",
             "DESIGN.md §5 C10"),
     "C11": ("exploration",
@@ -83,7 +83,7 @@ CHECKS = {
             "DESIGN.md §5 C17"),
     "C18": ("model_checking",
             "stateless exploration of the real code under a controlled cooperative scheduler: preemption-bounded exhaustive DFS over schedules",
-            "About 220 (quick) / 280 (thorough) scenarios of 2-3 real threads x 1-2 operations (execute a shared compiled filter / value expression, or parse + compile + execute) over 12 filters (regex, wildcard, SIMD contains, in $list with a harness matcher, map-each with memoised and re-evaluated arguments, nested harness calls, in {...}, three and/or combinators whose deciding operand differs between contexts: for these every (warm-up context, thread-0 context, thread-1 context) triple) and 4 contexts with different values, with sequential warm-ups, every execution starting from freshly compiled filters: every schedule with at most 2 (quick) / 3 (thorough) preemptions at the granularity of the cfg-guarded engine hooks and of every harness function / matcher call is executed to completion and every call's result compared with the sequential baseline. One schedule is replayed twice (identical traces required); a deliberately racy harness function is the canary (must show > 1 outcome); first use of lazily initialised state is explored in a fresh process. Auxiliary and not deciding: free-running barrier-released threads (4/16/64).",
+            "About 220 (quick) / 280 (thorough) scenarios of 2-3 real threads x 1-2 operations (execute a shared compiled filter / value expression, or parse + compile + execute) over 12 filters (regex, wildcard, SIMD contains, in $list with a harness matcher, map-each with memoised and re-evaluated arguments, nested harness calls, in {...}, three and/or combinators whose deciding operand differs between contexts: for these every (warm-up context, thread-0 context, thread-1 context) triple) and 4 contexts with different values, with sequential warm-ups, every execution starting from freshly compiled filters: every schedule with at most 2 (quick) / 3 (thorough) preemptions at the granularity of the cfg-guarded engine hooks and of every harness function / matcher call is executed to completion and every call's result compared with the sequential baseline. One schedule is replayed twice (identical traces required); a deliberately racy harness function is the canary (must show > 1 outcome); first use of lazily initialised state is explored in a fresh process. Sequential determinism: forward / reverse / recompiled sweeps, a context changed in place between executions (long-lived filter against a fresh compilation), and every ordered pair of eleven twin filters (one long pattern under wildcard / strict wildcard / matches / contains / == / in {}) compiled with the first member alive, on the same and on a second scheme. Auxiliary and not deciding (sampling): free-running barrier-released threads (4/16/64) on warmed filters, and 2/4/16 threads racing the first executions of freshly compiled large filters (4000-item sets, a 400-way alternation).",
             "Hooks: wirefilter::verif::set_yield_hook (sites filter.execute, filter_value.execute, ctx.get_field_value, regex.is_match, in_list.match_value, contains.select_searcher). No preemption inside dependency code between points; weak-memory effects invisible.",
             "DESIGN.md §5 C18"),
     "C19": ("model_checking",
